@@ -155,6 +155,34 @@ theorem C07_notify_all_wakes_all (s s' : St) (hr : Reachable s) (u : Nat)
       rw [hq] at this
       simp at this
 
+/-- The callback of a stop-token wait is a `notify_all`: when it leaves its critical section
+    no thread is waiting any more (same statement as `C07_notify_all_wakes_all`, for the
+    callback run by `request_stop` (`k = false`) or by the registering thread (`k = true`)). -/
+theorem C07_stop_callback_wakes_all (s s' : St) (hr : Reachable s) (u : Nat) (k : Bool)
+    (hpc : s.pc u = .cAll k) (h : step s (.slRel u) = some s') : ∀ w, s.waiting w = false := by
+  obtain ⟨hi, _⟩ := hr.inv
+  simp only [step] at h
+  split at h
+  case isFalse => simp at h
+  rename_i hg
+  rw [hpc] at h
+  simp only at h
+  split at h
+  case isFalse => simp at h
+  rename_i hq
+  intro w
+  cases hw : s.waiting w with
+  | false => rfl
+  | true =>
+    by_cases hwu : w = u
+    · subst hwu
+      have := hi.waitingIff w
+      rw [hw, hpc] at this
+      simp [waitExp] at this
+    · have := C07_atomic_release s hr u w hg.2 hwu hw
+      rw [hq] at this
+      simp at this
+
 /-- Each iteration of `notify_all` pops a thread that was waiting and wakes it. -/
 theorem C07_notify_all_pops_waiter (s s' : St) (hr : Reachable s) (u z g : Nat) (d : Bool)
     (h : step s (.popAll u z g d) = some s') :
@@ -173,7 +201,8 @@ theorem C07_notify_all_pops_waiter (s s' : St) (hr : Reachable s) (u z g : Nat) 
   · exact Or.inr h.2.1
 
 /-- **notify_all wakes every waiter (trace form).**  Take any reachable state in which
-    `notify_all` by `u` starts its critical work (`cv.all`), any thread `w` that is waiting
+    `notify_all` by `u` — the public call or (follow-up C07s) the stop callback of a stop-token
+    wait — starts its critical work (`cv.all`), any thread `w` that is waiting
     at that moment (released the user lock in a wait, not yet woken), and any continuation
     of the execution up to the `sl.rel` with which this `notify_all` leaves its critical
     section: the continuation contains the event "u pops and resumes w". -/
@@ -186,19 +215,19 @@ theorem C07_notify_all_wakes_each (s s1 s2 s3 : St) (hr : Reachable s) (u w z : 
   have hr1 : runLog step (init n f) (l0 ++ [.cvAll u z]) = some s1 := by
     rw [runLog_append, hl0]; simp [runLog, h1]
   -- facts at s1
-  have hs1 : s1.waiting w = true ∧ s1.lock = some u ∧ s1.pc u = .nAll := by
+  have hs1 : s1.waiting w = true ∧ s1.lock = some u ∧ allPc (s1.pc u) = true := by
     simp only [step] at h1
     split at h1
     case isFalse => simp at h1
     rename_i hg
-    split at h1
-    case h_2 => simp at h1
-    simp only [Option.some.injEq] at h1
-    subst h1
-    exact ⟨hw, hg.2.1, by simp [upd]⟩
+    (repeat' split at h1) <;> first | (simp at h1; done) | skip
+    all_goals
+      simp only [Option.some.injEq] at h1
+      subst h1
+      exact ⟨hw, hg.2.1, by simp [upd, allPc]⟩
   -- induction along the continuation
   have main : ∀ (log : List Ev) (l1 : List Ev) (sa : St), runLog step (init n f) l1 = some sa →
-      sa.waiting w = true ∧ sa.lock = some u ∧ sa.pc u = .nAll →
+      sa.waiting w = true ∧ sa.lock = some u ∧ allPc (sa.pc u) = true →
       runLog step sa log = some s2 → (∀ e ∈ log, e ≠ .slRel u) →
       ∃ z' d, Ev.popAll u z' w d ∈ log := by
     intro log
@@ -207,9 +236,17 @@ theorem C07_notify_all_wakes_each (s s1 s2 s3 : St) (hr : Reachable s) (u w z : 
       intro l1 sa hra hsa hrun _
       simp at hrun
       subst hrun
-      have := C07_notify_all_wakes_all sa s3 (show Reachable sa from ⟨n, f, l1, hra⟩) u hsa.2.2 h3 w
-      rw [hsa.1] at this
-      simp at this
+      have hra' : Reachable sa := ⟨n, f, l1, hra⟩
+      have hall := hsa.2.2
+      cases hp : sa.pc u <;> simp [hp, allPc] at hall
+      case nAll =>
+        have := C07_notify_all_wakes_all sa s3 hra' u hp h3 w
+        rw [hsa.1] at this
+        simp at this
+      case cAll k =>
+        have := C07_stop_callback_wakes_all sa s3 hra' u k hp h3 w
+        rw [hsa.1] at this
+        simp at this
     | cons e es ih =>
       intro l1 sa hra hsa hrun hno
       simp only [runLog] at hrun
@@ -759,34 +796,6 @@ theorem C07_stop_request_finds_callbacks (s s' : St) (hr : Reachable s) (u : Nat
     have := (hi3.reqOk s.reqT (by cases hp : s.pc s.reqT <;> simp [hp, curHeldPc] at hh <;> simp [reqPc, hh])).1
     rw [hpre.1] at this; simp at this
   · have := hi3.finReq t hk h1; rw [hpre.1] at this; simp at this
-
-/-- The callback of a stop-token wait is a `notify_all`: when it leaves its critical section
-    no thread is waiting any more (same statement as `C07_notify_all_wakes_all`, for the
-    callback run by `request_stop` (`k = false`) or by the registering thread (`k = true`)). -/
-theorem C07_stop_callback_wakes_all (s s' : St) (hr : Reachable s) (u : Nat) (k : Bool)
-    (hpc : s.pc u = .cAll k) (h : step s (.slRel u) = some s') : ∀ w, s.waiting w = false := by
-  obtain ⟨hi, _⟩ := hr.inv
-  simp only [step] at h
-  split at h
-  case isFalse => simp at h
-  rename_i hg
-  rw [hpc] at h
-  simp only at h
-  split at h
-  case isFalse => simp at h
-  rename_i hq
-  intro w
-  cases hw : s.waiting w with
-  | false => rfl
-  | true =>
-    by_cases hwu : w = u
-    · subst hwu
-      have := hi.waitingIff w
-      rw [hw, hpc] at this
-      simp [waitExp] at this
-    · have := C07_atomic_release s hr u w hg.2 hwu hw
-      rw [hq] at this
-      simp at this
 
 /-- **(b) No lost stop.**  After the winning `request_stop` has run its callbacks (in every
     state from the end of its callback loop on, in particular after it returned), no thread of
